@@ -294,8 +294,9 @@ pub enum Layer {
 	Lit { env: Env, lit: Rc<ObjLit>, names: Vec<Option<Rc<str>>> },
 	/// object comprehension result / native object: fixed fields with ready thunks builders
 	Fixed { env: Env, fields: Vec<(Rc<str>, bool, Vis, Rc<C>, Env)>, locals: Vec<(String, Rc<C>)> },
-	/// std.objectRemoveKey: hides `name` of the layers beneath from every lookup that starts above
-	Remove(Rc<str>),
+	/// std.objectRemoveKey: hides `name` of the layers of its own argument (the given number of layers directly
+	/// beneath) from every lookup that starts above; layers further down (a base the result is added onto) are untouched
+	Remove(Rc<str>, usize),
 }
 pub struct Obj {
 	pub layers: Vec<Rc<Layer>>,
@@ -449,13 +450,13 @@ impl Interp {
 		match l {
 			Layer::Lit { names, .. } => names.iter().position(|n| n.as_deref() == Some(name)),
 			Layer::Fixed { fields, .. } => fields.iter().position(|f| &*f.0 == name),
-			Layer::Remove(_) => None,
+			Layer::Remove(..) => None,
 		}
 	}
 	/// ordered map name -> visible? for the first `upto` layers
 	pub fn field_set(&self, o: &Obj, upto: usize) -> BTreeMap<Rc<str>, bool> {
 		let mut m: BTreeMap<Rc<str>, bool> = BTreeMap::new();
-		for l in &o.layers[..upto] {
+		for (li, l) in o.layers[..upto].iter().enumerate() {
 			let mut def = |n: &Rc<str>, vis: Vis| match vis {
 				Vis::Hidden => {
 					m.insert(n.clone(), false);
@@ -480,8 +481,16 @@ impl Interp {
 						def(&f.0, f.2);
 					}
 				}
-				Layer::Remove(n) => {
-					m.remove(n);
+				Layer::Remove(n, span) => {
+					// what lies beneath the removed region stays as it was
+					match self.field_set(o, li.saturating_sub(*span)).get(n) {
+						Some(v) => {
+							m.insert(n.clone(), *v);
+						}
+						None => {
+							m.remove(n);
+						}
+					}
 				}
 			}
 		}
@@ -502,7 +511,7 @@ impl Interp {
 		let (base, locals, outermost): (Env, &Vec<(String, Rc<C>)>, bool) = match &*o.layers[i] {
 			Layer::Lit { env, lit, .. } => (env.clone(), &lit.locals, lit.outermost),
 			Layer::Fixed { env, locals, .. } => (env.clone(), locals, false),
-			Layer::Remove(_) => unreachable!(),
+			Layer::Remove(..) => unreachable!(),
 		};
 		let mut env = Env { vars: base.vars.clone(), this: Some((o.clone(), i)) };
 		if outermost {
@@ -565,9 +574,10 @@ impl Interp {
 		let mut i = upto;
 		while i > 0 {
 			i -= 1;
-			if let Layer::Remove(n) = &*o.layers[i] {
+			if let Layer::Remove(n, span) = &*o.layers[i] {
 				if &**n == name {
-					return None;
+					// skip the layers of the removal's own argument
+					i = i.saturating_sub(*span);
 				}
 				continue;
 			}
@@ -594,7 +604,7 @@ impl Interp {
 					}
 					(f.1, f.3.clone(), env)
 				}
-				Layer::Remove(_) => unreachable!(),
+				Layer::Remove(..) => unreachable!(),
 			};
 			let th = if plus {
 				// f +: e   ==   f: if "f" in super then super.f + e else e
@@ -1381,7 +1391,8 @@ impl Interp {
 				let V::Obj(o) = arg(0)? else { return Err(tyerr("object", &arg(0)?)) };
 				let V::Str(f) = arg(1)? else { return Err(tyerr("string", &arg(1)?)) };
 				let mut layers = o.layers.clone();
-				layers.push(Rc::new(Layer::Remove(f)));
+				let span = layers.len();
+				layers.push(Rc::new(Layer::Remove(f, span)));
 				V::Obj(Obj::new(layers))
 			}
 			"get" => {
